@@ -441,6 +441,9 @@ func (a *Analysis) ruleF2() {
 			if a.counterBump(c.Instr) {
 				continue // counts the call: nothing reads the counter on this path (E1 class "counter")
 			}
+			if ci, ok := c.Instr.(ssa.CallInstruction); ok && a.inertCall(ci) {
+				continue // a trace region, a profiler label
+			}
 			r.Bad("F2", fk+"/extra-call", a.P.InstrPos(c.Instr), "", "%s also calls %s: the seed must be a function of the two NFKD forms only", fk, c.Callee)
 		}
 	}
@@ -875,6 +878,11 @@ func (a *Analysis) ruleF4() {
 
 // ---------------------------------------------------------------- E1
 
+func isOnceArray(t types.Type) bool {
+	at, ok := t.Underlying().(*types.Array)
+	return ok && isOnce(at.Elem())
+}
+
 func isOnce(t types.Type) bool {
 	n, ok := t.(*types.Named)
 	return ok && n.Obj().Pkg() != nil && n.Obj().Pkg().Path() == "sync" && n.Obj().Name() == "Once"
@@ -927,6 +935,64 @@ func (a *Analysis) ruleE1() {
 			// on what an earlier call left there without a rule noticing)
 			classes["pool"]++
 			r.OK("E1", key, pos, "", "sync.Pool used as a free list of %v: only Get/Put, content unknown on Get", a.G.PoolElem[g])
+		case isOnceArray(et):
+			// an array of guards: never assigned; every use of its address is &g[k] with a constant
+			// k, and that only as the receiver of Do
+			bad := false
+			for _, w := range ws {
+				r.Bad("E1", key, a.P.InstrPos(w.Instr), "", "array of sync.Once %s is written by %s (%s)", g.Name(), fnKey(w.Fn), w.How)
+				bad = true
+			}
+			for _, ld := range a.Ef.Loads[g] {
+				if !a.P.IsTestFunc(ld.Parent()) {
+					r.Bad("E1", key, a.P.InstrPos(ld), "", "array of sync.Once %s is copied by value", g.Name())
+					bad = true
+				}
+			}
+			for _, u := range a.Ef.AddrUse[g] {
+				if a.P.IsTestFunc(u.Parent()) {
+					continue
+				}
+				if c, ok := u.(ssa.CallInstruction); ok && calleeName(c) == "(*sync.Once).Do" {
+					if eg, _ := onceArrayElem(c.Common().Args[0]); eg == g {
+						continue // judged element by element below
+					}
+				}
+				r.Bad("E1", key, a.P.InstrPos(u), "", "the address of the array of sync.Once %s is used other than to take a constant element as the receiver of Do", g.Name())
+				bad = true
+			}
+			n := 0
+			for _, fn := range a.P.ModuleFuncs(false) {
+				for _, b := range fn.Blocks {
+					for _, in := range b.Instrs {
+						ia, ok := in.(*ssa.IndexAddr)
+						if !ok || ia.X != ssa.Value(g) {
+							continue
+						}
+						if _, k := onceArrayElem(ia); k < 0 {
+							r.Unk("E1", key, a.P.InstrPos(ia), "", "an element of the array of sync.Once %s is chosen by an index that is not a constant: which guard runs which construction is not followed", g.Name())
+							bad = true
+							continue
+						}
+						for _, ref := range *ia.Referrers() {
+							c, ok := ref.(ssa.CallInstruction)
+							if _, dbg := ref.(*ssa.DebugRef); dbg {
+								continue
+							}
+							if !ok || calleeName(c) != "(*sync.Once).Do" || c.Common().Args[0] != ssa.Value(ia) {
+								r.Bad("E1", key, a.P.InstrPos(ref), "", "an element of the array of sync.Once %s is used other than as the receiver of Do", g.Name())
+								bad = true
+								continue
+							}
+							n++
+						}
+					}
+				}
+			}
+			if !bad {
+				classes["guard"] += int(et.Underlying().(*types.Array).Len())
+				r.OK("E1", key, pos, "", "array of guards: elements chosen by constants, only ever the receiver of (*sync.Once).Do (%d sites)", n)
+			}
 		case isOnce(et):
 			// a guard: never assigned, address used only as the receiver of Do
 			bad := false
@@ -1017,7 +1083,9 @@ func (a *Analysis) ruleE1() {
 		r.Counts["E1."+k] = v
 		total += v
 	}
-	r.Counts["E1.classified"] = total
+	// a map built during package initialisation has no guard variable to classify
+	r.Counts["E1.guard"] += a.initBuilt
+	r.Counts["E1.classified"] = total + a.initBuilt
 	// every guard serves exactly one T3 instance
 	for g, n := range guards {
 		_ = n
@@ -1311,7 +1379,10 @@ func (a *Analysis) ruleS2() {
 									continue
 								}
 								hit, inLoop := e.LoopHits[c.Instr]
-								if !inLoop {
+								if !inLoop || (hit && e.LoopHitsUnrolled[c.Instr]) {
+									// (in a loop evaluated iteration by iteration: no lookup was made after one
+									// that had not certainly hit, and the last one, as this exit sees it, hit)
+									hit = false
 									if o := e.lkObj[c.Instr]; o != nil {
 										if cc, ok := x.State[o].(CellC); ok {
 											if b, ok := cc.V.(BoolV); ok && b.Known && b.Val {
